@@ -423,6 +423,8 @@ func (t *streamableHTTPClientTransport) handleSSEResponse(
 	reqID interface{},
 	options *streamOptions,
 ) (*json.RawMessage, error) {
+	// Whatever way the stream is left (result seen, error, context), release the connection.
+	defer httpResp.Body.Close()
 	reader := bufio.NewReader(httpResp.Body)
 	var rawResult *json.RawMessage
 	var resultReceived bool
